@@ -14,7 +14,42 @@ use crate::util::{hash_of, xo, Pick, ScriptRng, VClock, Xo};
 use crate::{panic_sig, take_panic, CaseCx, Out, Prop, Tier};
 
 #[derive(Default)]
-pub struct C01 {}
+pub struct C01 {
+    long_done: bool,
+}
+
+/// Very many calls on one instance (no machines / one small machine, mostly empty batches, standing
+/// clock): anything that counts calls or events in a narrow integer shows after 2^8, 2^16 or 2^32 of them.
+fn long_run(calls: u64, with_machine: bool, out: &mut Out) -> Result<(), String> {
+    use enum_map::enum_map;
+    use maybenot::counter::{Counter, Operation};
+    use maybenot::state::{State, Trans};
+    let machines: Vec<Machine> = if with_machine {
+        // counter A goes 1, 0, 1, 0 ... on NormalSent, with a CounterZero transition
+        let mut s0 = State::new(enum_map! { Event::NormalSent => vec![Trans(1, 1.0)], _ => vec![] });
+        s0.counter = (Some(Counter::new(Operation::Decrement)), None);
+        let mut s1 = State::new(enum_map! { Event::NormalSent => vec![Trans(0, 1.0)], Event::CounterZero => vec![Trans(1, 1.0)], _ => vec![] });
+        s1.counter = (Some(Counter::new(Operation::Increment)), None);
+        vec![Machine::new(0, 0.0, 0, 0.0, vec![s0, s1]).map_err(|e| format!("{e}"))?]
+    } else {
+        vec![]
+    };
+    let mut fw = Framework::new(&machines[..], 0.0, 0.0, VClock(1), ScriptRng::fair(1)).map_err(|e| format!("{e}"))?;
+    let ev = [TriggerEvent::NormalSent];
+    let mut acts = 0u64;
+    for i in 0..calls {
+        fw.verif_set_budget(64);
+        let batch: &[TriggerEvent] = if with_machine || i % 1024 == 0 { &ev } else { &[] };
+        acts += fw.trigger_events(batch, VClock(1)).count() as u64;
+        if i % (1 << 24) == 0 {
+            crate::hb_tag(&format!("long run, call {i}"));
+        }
+    }
+    crate::hb_tag("");
+    out.add("calls_on_one_long_lived_instance", calls);
+    out.add("actions_returned", acts);
+    Ok(())
+}
 
 /// deliveries per call are bounded by K * (events + 1) * (machines + 1)
 const K: u64 = 4;
@@ -172,6 +207,29 @@ impl Prop for C01 {
     }
 
     fn run_case(&mut self, cx: &CaseCx, out: &mut Out) {
+        if !self.long_done && (cx.shard == 0 || cx.shard == 1 % cx.nshards) {
+            self.long_done = true;
+            // shard 0: one small machine, 2^16 + 2^10 calls (thorough: 2^24); shard 1: no machine,
+            // 2^32 + 2^10 calls (about 15 s)
+            let (calls, with_machine) = match (cx.shard == 0, cx.tier) {
+                (true, Tier::Quick) => ((1 << 16) + 1024, true),
+                (true, Tier::Thorough) => ((1 << 24) + 1024, true),
+                (false, _) => ((1u64 << 32) + 1024, false),
+            };
+            let res = catch_unwind(AssertUnwindSafe(|| long_run(calls, with_machine, out)));
+            match res {
+                Ok(Ok(())) => out.bump("long_lived_instances"),
+                Ok(Err(m)) => out.violation("long-run".to_string(), m, json!({"calls": calls, "with_machine": with_machine})),
+                Err(_) => {
+                    let (msg, loc) = take_panic();
+                    out.violation(
+                        format!("panic/{}", panic_sig(&msg, &loc)),
+                        format!("{msg} at {loc} (one instance, {calls} calls planned, standing clock, batches of 0 or 1 NormalSent)"),
+                        json!({"calls": calls, "with_machine": with_machine}),
+                    );
+                }
+            }
+        }
         let mut r = xo(cx.seed);
         let scripted = r.chance(1, 2);
         let mut cfg = MCfg::wild();
